@@ -192,17 +192,30 @@ public:
       }
       _lastAdvanceTime = now;
 
+      // Entries found in a swept bucket whose deadline is still a full tick or
+      // more away. This happens when the wheel lags real time (slow callback,
+      // descheduled tick thread): schedule() places entries relative to the
+      // lagging currentTick and the catch-up sweep would fire them early.
+      std::vector<TimerEntry*> notDue;
+
       for (std::size_t t = 0; t < ticksToProcess; ++t)
       {
         auto& level0 = _wheels[0];
         auto& bucket = level0.buckets[level0.currentTick & _tickMask];
-        collectFromBucket(bucket, toFire);
+        collectFromBucket(bucket, now, toFire, notDue);
         level0.currentTick++;
 
         if ((level0.currentTick & _tickMask) == 0)
         {
           cascadeDown(1, now, toFire);
         }
+      }
+
+      // Re-insert relative to the caught-up wheel position
+      for (auto* entry : notDue)
+      {
+        insertEntry(entry, std::chrono::duration_cast<std::chrono::milliseconds>(
+                             entry->deadline - now));
       }
     }
 
@@ -543,14 +556,22 @@ private:
   /// skip entries that were placed correctly. Entries whose deadline
   /// is slightly in the future (placed between ticks) still fire —
   /// this matches the tick-granularity contract.
-  void collectFromBucket(Bucket& bucket,
-                         std::vector<std::pair<TimerId, Callback>>& toFire)
+  void collectFromBucket(Bucket& bucket, TimePoint now,
+                         std::vector<std::pair<TimerId, Callback>>& toFire,
+                         std::vector<TimerEntry*>& notDue)
   {
     auto* entry = bucket.head;
     while (entry)
     {
       auto* next = entry->next;
       bucket.unlink(entry);
+      if (entry->deadline - now >= _tickDuration)
+      {
+        // A full tick or more early: not within tick granularity, defer
+        notDue.push_back(entry);
+        entry = next;
+        continue;
+      }
       _entryMap.erase(entry->id);
       toFire.emplace_back(entry->id, std::move(entry->callback));
       freeEntry(entry);
